@@ -654,6 +654,48 @@ theorem linearizability_monitor_silent_on_model (g : Nat) (cfg : Nat → LockCfg
   rw [hr.1]
   exact linearize_finds_model_placement cfg keys _ hr.2 outer ho cached p hp inner hs
 
+/-- **the store monitor never fires on the model**: the lease table's view of every key is what the Redis-level
+model shows, after every history (so a `spec=[…] impl=[…]` line can only come from the implementation). -/
+theorem store_monitor_silent_on_model (g : Nat) (cfg : Nat → LockCfg) (keys : List String) (ops : List Op) :
+    specDump (Spec.run cfg (ASt.initG g) ops) keys = modelDump (run cfg (St.initG g) ops) keys := by
+  have hr := run_refines cfg ops (St.initG g) (hasTTL_initG g)
+  rw [abs_initG] at hr
+  rw [hr.1]
+  exact specDump_abs _ hr.2 keys
+
+/-- **the beliefs monitor never fires on the model** ("two holders: instance i was granted … while instance j still
+holds an unexpired lease"): in every state reachable from the empty store, with the beliefs derived from the
+model's own results, after a successful Acquire by `i` no other instance on its key believes to hold it. -/
+theorem belief_monitor_silent_on_model (g : Nat) (cfg : Nat → LockCfg) (hd : DistinctIds cfg) (ops : List Op)
+    (c : Ctx) (hc : c.cfg = cfg) (i : Nat)
+    (hres : (step cfg (run cfg (St.initG g) ops) (.acquire i)).2 = true) :
+    otherBeliever c
+      (((grun cfg (St.initG g) Belief.none ops).2).step (run cfg (St.initG g) ops).store.now
+        (run cfg (St.initG g) ops).secs (.acquire i) true)
+      (run cfg (St.initG g) ops).store.now i = none := by
+  have hinv := beliefInv_grun cfg hd ops (St.initG g) Belief.none (by intro i u hb; simp [Belief.none] at hb)
+  rw [grun_fst] at hinv
+  unfold otherBeliever
+  rw [List.find?_eq_none]
+  intro j _ hj
+  simp only [decide_eq_true_eq, Bool.and_eq_true, Bool.decide_and] at hj
+  obtain ⟨hji, hk, hb⟩ := hj
+  rw [hc] at hk
+  have hb' : believes (grun cfg (St.initG g) Belief.none ops).2 (run cfg (St.initG g) ops).store.now j = true := by
+    simpa [Belief.step, updB, believes, hji] using hb
+  have hh := believes_holds cfg _ _ hinv j hb'
+  exact acquire_succeeds_only_if_no_other_holder cfg hd _ i hres j hji hk hh
+
+/-- two instances on one key that drew the SAME id (what `DistinctIds` excludes; `NewRedisLock` draws ids from a
+`math/rand` source seeded with the start time in ns) -/
+def sameIdCfg (_ : Nat) : LockCfg := { key := "k", id := "same" }
+
+/-- **`DistinctIds` is necessary** (witness): with a shared id the second instance's Acquire is taken for a refresh
+by the holder — both calls report true at the same instant — and its Release frees the first one's lock. -/
+theorem same_id_two_holders :
+    results sameIdCfg St.init [.acquire 0, .acquire 1, .release 1, .release 0] = [true, true, true, false] := by
+  decide
+
 /-! ### non-vacuity: concrete instances of the hypotheses and of the scenarios -/
 
 
@@ -744,5 +786,8 @@ example : linearize exCfg ["k"] (Spec.run exCfg ASt.init [.acquire 0]) (.release
 
 -- Randn(3) from one Int63 whose low draws are 0, 63 (rejected), 61, 26: ids fill from the back: "A9a"
 example : randnFrom 3 (drawsOfInt63 (0 + 63 * 64 + 61 * 64 ^ 2 + 26 * 64 ^ 3)) = some ['A', '9', 'a'] := by decide
+
+-- hypothesis of `belief_monitor_silent_on_model` is satisfiable: after 0's lease ran out, 1's Acquire succeeds
+example : (step exCfg (run exCfg St.init [.acquire 0, .ft 500]) (.acquire 1)).2 = true := by decide
 
 end GoZero.C19
